@@ -40,19 +40,32 @@ RULE = (
     "element) up to the tier length over the listed alphabet, from each of the 4 initial values per dimension, "
     "executed on fresh deepali values and in lock step on plain tensors; distinct = hash of (type, dtype, shape, "
     "data bytes, which source grid every entry carries, axes) of the result; non-trivial = the result is again "
-    "one of the four image types (a grid had to be chosen for it)"
+    "one of the four image types (a grid had to be chosen for it). "
+    "family: every program [observe (index / iterate / tensor() / batch(), result discarded), copy / deepcopy / pickle / "
+    "torch.save / clone, in-place elementwise op, observe] in the orders PCIO, CPIO, PICO from every initial value. "
+    "alias: every (value with repeated or shared Grid objects, deep copy form incl. several objects copied in ONE "
+    "deepcopy / pickle call, side edited in place (original | copy), edit (5 grid setters on the grid of entry 0, 1, last; "
+    "2 data edits)); the other side is read as a whole, by indexing and by iteration before and after the edit"
 )
-EXPLANATION = "bounded exhaustive exploration of torch-op programs on tagged image batches; provenance decoded from result data"
+EXPLANATION = (
+    "bounded exhaustive exploration of torch-op programs (incl. in-place ops, setters, copies) on tagged image batches, "
+    "provenance decoded from result data; two-object copy/edit/read histories on values with shared Grid objects"
+)
 ASSUMPTIONS = [
     "CPU tensors; integer-valued float32 data so that x*2, x+1, -x and dtype casts are exact",
     "items of a batch have grossly different grids (origin, spacing, signed-permutation direction, align_corners)",
     "an entry is judged for provenance only if every non-constant channel is a bit-exact copy of a channel of one source item",
     "operations whose plain-tensor execution raises are outside the domain (not enabled)",
     "programs are not continued from plain-Tensor results nor from results that already violated the property",
+    "values are expected under the affine map the program applied so far (identity also once the untouched `other` operand was "
+    "combined); an entry that decodes only under an EARLIER map of the same program holds stale data (problem stale-data)",
+    "alias histories: a deep copy (copy.deepcopy, pickle, torch.save/load) preserves type, data, grids and axes durably: what a "
+    "reader of one side sees must not change when the other side is edited in place; shallow copies are not judged",
+    "in-place SHAPE operations (transpose_, squeeze_, ...) return plain tensors and are outside the statement: not in the alphabet",
 ]
-MIN_NONTRIVIAL = {"quick": 1200, "thorough": 8000}
-MIN_OUTCOMES = {"quick": 3500, "thorough": 15000}
-MIN_SUB_TRACES = {"programs": 25000, "copy": 500}
+MIN_NONTRIVIAL = {"quick": 30000, "thorough": 60000}  # measured quick 60157
+MIN_OUTCOMES = {"quick": 25000, "thorough": 50000}  # measured quick 53887
+MIN_SUB_TRACES = {"programs": 60000, "copy": 4000, "family": 20000, "alias": 2500}  # measured quick 120822 / 8162 / 39420 / 5076
 
 KINDS = ("ImageBatch", "Image", "FlowFields", "FlowField")
 # batches whose item grids contain pairs that compare equal under Grid.__eq__ (allclose, align_corners ignored) without
@@ -302,6 +315,19 @@ def _peek(x, c, what):
     return x
 
 
+def _discard(fn):
+    """Operation evaluated for its side effects only: the program continues with the SAME object."""
+    def run(x, c):
+        fn(x, c)
+        return x
+
+    return run
+
+
+def _tensor_view(x, c):
+    return x if (c.plain or not hasattr(x, "tensor")) else x.tensor()
+
+
 def _sizes0(x):
     return [1, x.shape[0] - 1]
 
@@ -368,6 +394,12 @@ def _build_alphabet():
     A("where(gt0,x,x)", E, lambda x, c: torch.where(x > 0, x, x), None)
     A("add_(1)", E, lambda x, c: x.add_(1), LIN(1, 1))
     A("mul_(2)", E, lambda x, c: x.mul_(2), LIN(2, 0))
+    # in-place elementwise operations (return the receiver, same type)
+    A("neg_()", E, lambda x, c: x.neg_(), LIN(-1, 0), menu=True)
+    A("sub_(1)", E, lambda x, c: x.sub_(1), LIN(1, -1))
+    A("copy_(2x)", E, lambda x, c: x.copy_(x.detach().as_subclass(Tensor) * 2), LIN(2, 0))
+    A("add_(zeros_plain)", E, lambda x, c: x.add_(c.zeros(x)), None)
+    A("clamp_(min=-1e9)", E, lambda x, c: x.clamp_(min=-1e9), None)
     A("zeros_like", E, lambda x, c: torch.zeros_like(x), UNK)
     R = "reduce"
     for d in (0, 1, 2):
@@ -421,6 +453,12 @@ def _build_alphabet():
     A("select(2,1)", S, lambda x, c: x.select(2, 1))
     A("index_select(0,(2,0))", S, lambda x, c: x.index_select(0, torch.tensor([2, 0])), menu=True)
     A("index_select(0,(1))", S, lambda x, c: x.index_select(0, torch.tensor([1])))
+    # 0-d index tensors (torch accepts them: result has size 1 along the dim)
+    A("index_select(0,tensor0d(1))", S, lambda x, c: x.index_select(0, torch.tensor(1)))
+    A("index_select(-ndim,tensor0d(1))", S, lambda x, c: x.index_select(-x.ndim, torch.tensor(1)))
+    A("index_select(1,tensor0d(0))", S, lambda x, c: x.index_select(1, torch.tensor(0)))
+    A("torch.index_select(0,tensor0d(1))", S, lambda x, c: torch.index_select(x, 0, torch.tensor(1)))
+    A("index_select(dim=0,index=tensor0d(0))", S, lambda x, c: x.index_select(dim=0, index=torch.tensor(0)))
     A("index_select(1,(0))", S, lambda x, c: x.index_select(1, torch.tensor([0])))
     A("index_select(2,(1,0))", S, lambda x, c: x.index_select(2, torch.tensor([1, 0])))
     A("torch.index_select(0,(2,0))", S, lambda x, c: torch.index_select(x, 0, torch.tensor([2, 0])))
@@ -654,6 +692,12 @@ def _build_alphabet():
     A("crop(0);grid_(X)", G, lambda x, c: _set_grid(x, c, "crop"))
     A("peek:batch()", G, lambda x, c: _peek(x, c, "batch"), menu=True)
     A("peek:narrow(0,full)", G, lambda x, c: _peek(x, c, "narrow"))
+    A("peek:getitem(0)", G, _discard(lambda x, c: x[0]))
+    A("peek:getitem(1:)", G, _discard(lambda x, c: x[1:]))
+    A("peek:getitem(list(2,0))", G, _discard(lambda x, c: x[[2, 0]]))
+    A("peek:iter", G, _discard(lambda x, c: list(x)))
+    A("peek:tensor()", G, _discard(_tensor_view))
+    A("peek:clone()", G, _discard(lambda x, c: x.clone()))
     T2 = "iter"
     A("iter", T2, lambda x, c: list(x), menu=True)
     A("reversed", T2, lambda x, c: list(reversed(x)))
@@ -680,7 +724,7 @@ MENU2 = MENU + [
     "float()", "to(same_dtype)", "long()", "contiguous()", "data", "torch.save_load",
     "flip(2,0)", "roll((1,1),(2,0))", "narrow(dim=-ndim,start=1,length=2)", "index_select(dim=-ndim,index=(2,0))",
     "tensor_split(list(1),dim=-ndim)", "cat(other,x;-ndim)", "batch();grid_(X)", "narrow(0,full)", "torch.narrow(0,-2,2)",
-    "narrow(0,-2,2)",
+    "narrow(0,-2,2)", "copy_(2x)", "sub_(1)", "peek:getitem(0)", "peek:iter", "index_select(0,tensor0d(1))",
 ]
 assert all(n in OPS for n in MENU2) and len(set(MENU2)) == len(MENU2)
 # second operation for the near-equal-grid batches in the quick tier: everything that copies, clones or regroups grids
@@ -709,6 +753,8 @@ def bounds(tier):
         "program_length_full_alphabet": 2,
         "program_length_menu": 2 if tier == "quick" else 3,
         "program_length_menu_applies_to": "D=2",
+        "family_programs": {"peek": len(FAM_PEEK), "copy": len(FAM_COPY), "inplace": len(FAM_INPLACE), "observe": len(FAM_OBS), "orders": list(FAM_ORDERS)},
+        "alias_histories": {"cases": len(alias_cases(tier)), "preparations": list(ALIAS_PREP), "copy_forms": list(ALIAS_COPY), "edits": ALIAS_EDIT, "edited_entries": "0, 1, last", "sides": ["original", "copy"]},
         "tuple_results_continued_from": "elements 0, 1 and last",
     }
 
@@ -776,15 +822,29 @@ def decode_entry(U: Universe, arr: np.ndarray, affs):
     return ("item", next(iter(found)), intact)
 
 
-def entry_verdicts(U: Universe, R, aff):
+def entry_verdicts(U: Universe, R, aff, foreign=True, stale=()):
+    """Decode every entry.  Values are expected under the affine map `aff` applied so far; the identity map is also
+    admissible once a foreign operand (the `other` value, which no operation of the program has touched) was combined.
+    An entry that decodes only under an EARLIER map of the program holds values the value no longer contains:
+    ("stale", item)."""
     data = R.as_subclass(Tensor).detach()
     arr = data.double().numpy()
     entries = arr if is_batch(R) else arr[None]
-    affs = [aff] if aff == (1, 0) else [aff, (1, 0)]
-    return [decode_entry(U, e, affs) for e in entries]
+    affs = [aff] + ([(1, 0)] if (foreign and aff != (1, 0)) else [])
+    out = []
+    for e in entries:
+        v = decode_entry(U, e, affs)
+        if v == ("undef", "channel-not-a-source-channel"):
+            old = [a for a in stale if a not in affs]
+            if old:
+                w = decode_entry(U, e, old)
+                if w[0] == "item":
+                    v = ("stale", w[1])
+        out.append(v)
+    return out
 
 
-def judge_value(U: Universe, kind: str, R, aff, mixed=False, regrid=False):
+def judge_value(U: Universe, kind: str, R, aff, mixed=False, regrid=False, foreign=True, stale=()):
     """Judge ONE typed result from its own data.  -> (problems [(name, detail)], obs tuple, undef reasons)"""
     from deepali.core.grid import Grid
 
@@ -851,7 +911,11 @@ def judge_value(U: Universe, kind: str, R, aff, mixed=False, regrid=False):
         items = ["m"]
     else:
         any_item = False
-        for k, verdict in enumerate(entry_verdicts(U, R, aff)):
+        for k, verdict in enumerate(entry_verdicts(U, R, aff, foreign, stale)):
+            if verdict[0] == "stale":
+                problems.append(("stale-data", f"entry {k} holds the values item {verdict[1]} had BEFORE an in-place operation of the program (the value itself no longer contains them)"))
+                items.append("s")
+                continue
             if verdict[0] == "undef":
                 undefs.append(verdict[1])
                 items.append("u")
@@ -934,6 +998,8 @@ class Run:
         self.aff = (1, 0)
         self.mixed = False  # an entry holds channels of items with different grids (provenance then undefined)
         self.regrid = False  # grid_(X) was applied: every entry of the value carries the grid set last
+        self.foreign = False  # the untouched `other` value was combined: identity-mapped values are legitimate
+        self.past = []  # affine maps the value had earlier in the program
 
     def step(self, name):
         """-> ("disabled", exc) | ("raises", exc) | ("ok", impl_result, plain_result, new_aff, in_type)"""
@@ -953,6 +1019,8 @@ class Run:
         idx = 0 if pick is None else pick
         if idx >= len(els) or idx >= len(pels):
             return False
+        if self.aff is not None and aff != self.aff and self.aff not in self.past:
+            self.past.append(self.aff)
         self.x, self.p, self.aff = els[idx], pels[idx], aff
         if typed(self.x) and aff is not None and not self.mixed:
             st, vs = guarded(entry_verdicts, self.U, self.x, aff)
@@ -981,6 +1049,8 @@ def execute(D, kind, steps, acc: Acc = None):
             # a single image combined with ANOTHER image (different grid) along channels / by broadcasting:
             # which grid such a result should carry is not promised -> provenance undefined from here on
             run.mixed = True
+        if "other" in name:
+            run.foreign = True
         if run.regrid and "other" in name:
             run.mixed = True  # entries with the re-set grid X combined with entries that keep their own grid: not tracked
         res = run.step(name)
@@ -1009,7 +1079,7 @@ def execute(D, kind, steps, acc: Acc = None):
                 info["copy"] = True
             for k, el in enumerate(els):
                 if typed(el):
-                    problems, obs, undefs = judge_value(run.U, run.kind, el, aff, run.mixed, run.regrid)
+                    problems, obs, undefs = judge_value(run.U, run.kind, el, aff, run.mixed, run.regrid, run.foreign, [a for a in run.past + [run.aff] if a is not None and a != aff])
                     for problem, detail in problems:
                         out.append((sig_of(name, in_type, problem), (f"element {k}: " if len(els) > 1 else "") + detail))
                     obs_all.append(obs)
@@ -1039,6 +1109,222 @@ def execute(D, kind, steps, acc: Acc = None):
 
 
 # ---------------------------------------------------------------------------
+# family programs of length 4: [observe, copy, in-place elementwise, observe] in three orders
+FAM_PEEK = [None, "peek:getitem(0)", "peek:getitem(1:)", "peek:getitem(list(2,0))", "peek:iter", "peek:tensor()", "peek:narrow(0,full)", "peek:batch()", "peek:clone()"]
+FAM_COPY = ["copy.copy", "copy.deepcopy", "pickle", "pickle(protocol=2)", "torch.save_load", "clone()"]
+FAM_INPLACE = ["mul_(2)", "add_(1)", "neg_()", "copy_(2x)", "sub_(1)"]
+FAM_OBS = ["getitem(0)", "getitem(1)", "getitem(-1)", "getitem(1:)", "getitem(list(2,0))", "getitem(ellipsis)", "iter", "reversed",
+           "narrow(0,1,2)", "split(1)", "index_select(0,(2,0))", "clone()", "detach()", "cat(x,x;dim=0)"]
+FAM_ORDERS = ("PCIO", "CPIO", "PICO")
+assert all(n is None or n in OPS for n in FAM_PEEK + FAM_COPY + FAM_INPLACE + FAM_OBS)
+
+
+def family_programs(order, peek):
+    for cp in FAM_COPY:
+        for ip in FAM_INPLACE:
+            first3 = {"PCIO": [peek, cp, ip], "CPIO": [cp, peek, ip], "PICO": [peek, ip, cp]}[order]
+            for ob in FAM_OBS:
+                yield [[n, None] for n in first3 if n is not None] + [[ob, None]]
+
+
+def run_family_shard(acc: Acc, shard):
+    D, kind = shard["D"], shard["kind"]
+    for steps in family_programs(shard["order"], shard["peek"]):
+        status, viols, info = execute(D, kind, steps, acc)
+        if status == "disabled":
+            acc.undef("not-enabled:plain-torch-raises")
+            continue
+        if status == "ended":
+            acc.undef("family:ended-before-last-step")
+            continue
+        acc.trace("family", depth=len(steps))
+        case = {"D": D, "kind": kind, "steps": steps}
+        for sig, detail in viols:
+            acc.violation(sig, case, detail, size=len(steps))
+        acc.outcome("family", info["obs"], [s[0] for s in steps][:-1])
+        for r in info.get("undefs", []):
+            acc.undef("provenance:" + r)
+        for key in info.get("keys", []):
+            acc.state(key)
+            acc.nontriv("family", key, [s[0] for s in steps])
+        if info["typed"] and len(acc.samples) < 1:
+            acc.sample({"D": D, "kind": kind, "program": steps, "result": repr(info["obs"])[:300]})
+
+
+# ---------------------------------------------------------------------------
+# alias histories (two live objects): value with repeated / shared Grid objects -> deep copy -> in-place edit of one
+# side (grid of item k, or data) -> read the other side (as a whole, by indexing, by iteration)
+ALIAS_PREP = {
+    "identity": lambda x: x,
+    "getitem(list(0,0,2))": lambda x: x[[0, 0, 2]],
+    "getitem(list(1,2,2,1))": lambda x: x[[1, 2, 2, 1]],
+    "cat(x,x;dim=0)": lambda x: torch.cat([x, x], dim=0),
+    "shared-grid": lambda x: x.grid(x.grid(0)),
+    "flip(0)": lambda x: x.flip(0),
+}
+ALIAS_PREP_SINGLE = {
+    "identity": lambda x: x,
+    "getitem(1:)": lambda x: x[1:],
+    "detach()": lambda x: x.detach(),
+}
+
+
+def _dc_tuple(partner):
+    def run(x):
+        r = copy.deepcopy((x, partner(x)))
+        return r
+
+    return run
+
+
+ALIAS_COPY = {
+    "copy.deepcopy": lambda x: copy.deepcopy(x),
+    "pickle": lambda x: pickle.loads(pickle.dumps(x)),
+    "torch.save_load": lambda x: _save_load(x),
+    "deepcopy(list(x,x)).0": lambda x: copy.deepcopy([x, x])[0],
+    "deepcopy(tuple(x,detach)).0": lambda x: copy.deepcopy((x, x.detach()))[0],
+    "deepcopy(tuple(x,detach)).1": lambda x: copy.deepcopy((x, x.detach()))[1],
+    "deepcopy(tuple(x,flip0)).1": lambda x: copy.deepcopy((x, x.flip(0)))[1],
+    "deepcopy(tuple(flip0,x)).1": lambda x: copy.deepcopy((x.flip(0), x))[1],
+    "pickle(tuple(x,detach)).1": lambda x: pickle.loads(pickle.dumps((x, x.detach())))[1],
+    "deepcopy(dict(a=x,b=x[0])).a": lambda x: copy.deepcopy({"a": x, "b": x[0]})["a"],
+    "deepcopy(list(items))": lambda x: copy.deepcopy(list(x)),
+}
+ALIAS_EDIT = ["grid.origin_", "grid.spacing_", "grid.align_corners_", "grid.center().add_", "grid.direction_", "data.mul_(2)", "data.add_(1)"]
+
+
+def _entries(v):
+    """[(data tensor, grid)] of every entry of a value, a list of images, read through indexing."""
+    if isinstance(v, list):
+        return [(im.as_subclass(Tensor), im.grid()) for im in v]
+    if is_batch(v):
+        return [(v.as_subclass(Tensor)[i], v.grid(i)) for i in range(v.shape[0])]
+    return [(v.as_subclass(Tensor), v.grid())]
+
+
+def _snapshot(v):
+    """What a reader of the value sees: type, data, per-entry exact grid attributes, axes; also through v[i] / iteration."""
+    out = [type(v).__name__]
+    for d, g in _entries(v):
+        a = observe_grid(g)
+        out.append((tensor_bytes(d), tuple(x.tobytes() if isinstance(x, np.ndarray) else x for x in a)))
+    if isinstance(v, list):
+        return tuple(out)
+    if is_flow(v):
+        out.append(("axes", v.axes().value))
+    if is_batch(v):
+        for i, im in enumerate(list(v)):  # iteration
+            out.append(("iter", i, tensor_bytes(im.as_subclass(Tensor)), tuple(x.tobytes() if isinstance(x, np.ndarray) else x for x in observe_grid(im.grid()))))
+        for i in range(v.shape[0]):  # indexing
+            im = v[i]
+            out.append(("item", i, tensor_bytes(im.as_subclass(Tensor)), tuple(x.tobytes() if isinstance(x, np.ndarray) else x for x in observe_grid(im.grid()))))
+    return tuple(out)
+
+
+def _apply_edit(v, edit, k, D):
+    ents = _entries(v)
+    k = min(k, len(ents) - 1)
+    d, g = ents[k]
+    if edit == "grid.origin_":
+        g.origin_(tuple(float(100 + 7 * j) for j in range(D)))
+    elif edit == "grid.spacing_":
+        g.spacing_(tuple(float(3 + j) for j in range(D)))
+    elif edit == "grid.align_corners_":
+        g.align_corners_(not g.align_corners())
+    elif edit == "grid.center().add_":
+        g.center().add_(2.0)
+    elif edit == "grid.direction_":
+        g.direction_(tuple(tuple(-1.0 if r == c else 0.0 for c in range(D)) for r in range(D)))
+    elif edit == "data.mul_(2)":
+        (v[k] if isinstance(v, list) else v).mul_(2)
+    elif edit == "data.add_(1)":
+        (v[k] if isinstance(v, list) else v).add_(1)
+    else:
+        raise KeyError(edit)
+
+
+def alias_cases(tier):
+    out = []
+    for D in dims_for(tier):
+        for kind in KINDS:
+            batch = kind in ("ImageBatch", "FlowFields")
+            preps = ALIAS_PREP if batch else ALIAS_PREP_SINGLE
+            for prep in preps:
+                for how in ALIAS_COPY:
+                    if not batch and ("flip0" in how or "items" in how or "dict" in how):
+                        continue
+                    out.append({"D": D, "kind": kind, "prep": prep, "copy": how})
+    return out
+
+
+def alias_sig(case, target, edit, k, problem):
+    return f"C19/alias/copy={case['copy']}/prep={case['prep']}/type={case['kind']}/edit-{target}={edit}@{k}/{problem}"
+
+
+def run_alias(case, target, edit, k):
+    """-> (status, problems [(problem, detail)], obs)"""
+    D, kind = case["D"], case["kind"]
+    U = Universe.get(D)
+    batch = kind in ("ImageBatch", "FlowFields")
+    st, x = guarded(lambda: (ALIAS_PREP if batch else ALIAS_PREP_SINGLE)[case["prep"]](U.build(kind, "base")))
+    if st == "raises" or not typed(x):
+        return "prep-failed", [], ("prep-failed",)
+    st, c = guarded(ALIAS_COPY[case["copy"]], x)
+    if st == "raises":
+        return "copy-raises", [], ("copy-raises", type(c).__name__)
+    if not (typed(c) or (isinstance(c, list) and c and all(typed(e) for e in c))):
+        return "copy-not-typed", [], ("copy-not-typed",)
+    sides = {"original": x, "copy": c}
+    other = "copy" if target == "original" else "original"
+    st, before = guarded(_snapshot, sides[other])
+    if st == "raises":
+        return "snapshot-raises", [], ("snapshot-raises", type(before).__name__)
+    st, tb = guarded(_snapshot, sides[target])
+    st, e = guarded(_apply_edit, sides[target], edit, k, D)
+    if st == "raises":
+        return "edit-raises", [], ("edit-raises", type(e).__name__)
+    st, after = guarded(_snapshot, sides[other])
+    problems = []
+    if st == "raises":
+        problems.append(("read-raises=" + type(after).__name__, exc_text(after)))
+    elif after != before:
+        what = []
+        for i, (b, a) in enumerate(zip(before, after)):
+            if b != a:
+                what.append(i)
+        part = "grid" if edit.startswith("grid") else "data"
+        problems.append((f"deep-copy-shares-{part}/{target}->{other}", f"in-place {edit} on entry {k} of the {target} changed what the {other} holds (snapshot parts {what[:6]}): the deep copy does not preserve its own {part}"))
+    st, ta = guarded(_snapshot, sides[target])
+    effective = st == "ok" and ta != tb
+    return "ok", problems, ("ok", effective)
+
+
+def run_alias_shard(acc: Acc, shard):
+    case = shard["case"]
+    batch = case["kind"] in ("ImageBatch", "FlowFields")
+    ks = (0, 1, 99) if batch else (0,)
+    for target in ("original", "copy"):
+        for edit in ALIAS_EDIT:
+            for k in ks:
+                if edit.startswith("data") and k != 0:
+                    continue
+                status, problems, obs = run_alias(case, target, edit, k)
+                if status != "ok":
+                    acc.undef("alias:" + status)
+                    continue
+                acc.trans(3)
+                acc.trace("alias", depth=4)
+                acc.state("alias", case, target, edit, k)
+                acc.outcome("alias", case, target, edit, k, obs)
+                if obs[1]:
+                    acc.nontriv("alias", case, target, edit, k)
+                for problem, detail in problems:
+                    acc.violation(alias_sig(case, target, edit, k, problem), {"alias": case, "target": target, "edit": edit, "k": k}, detail, size=4)
+                if len(acc.samples) < 1:
+                    acc.sample({"alias": case, "target": target, "edit": edit, "k": k})
+
+
+# ---------------------------------------------------------------------------
 def shards(tier: str, seed: int):
     out = []
     for D in dims_for(tier):
@@ -1050,6 +1336,12 @@ def shards(tier: str, seed: int):
             step = 8 if tier == "quick" else 1
             for j in range(0, len(ORDER), step):
                 out.append({"tier": tier, "D": D, "kind": kind, "first": ORDER[j : j + step]})
+        for kind in KINDS:
+            for order in FAM_ORDERS:
+                for peek in FAM_PEEK:
+                    out.append({"tier": tier, "D": D, "kind": kind, "family": True, "order": order, "peek": peek})
+    for case in alias_cases(tier):
+        out.append({"tier": tier, "alias": True, "case": case})
     return out
 
 
@@ -1099,6 +1391,12 @@ def _explore(acc: Acc, tier, D, kind, steps, depth_full, depth_menu):
 def run_shard(shard) -> Acc:
     acc = Acc()
     tier = shard["tier"]
+    if shard.get("alias"):
+        run_alias_shard(acc, shard)
+        return acc
+    if shard.get("family"):
+        run_family_shard(acc, shard)
+        return acc
     depth_menu = 3 if (tier == "thorough" and shard["D"] == 2) else 2
     Universe.get(shard["D"])
     acc.state("initial", shard["D"], shard["kind"])
@@ -1110,6 +1408,10 @@ def run_shard(shard) -> Acc:
 
 def replay(case):
     """Plain re-execution of one recorded program; returns [(sig, detail)] of its last step."""
+    if "alias" in case:
+        k = int(case["k"])
+        _, problems, _ = run_alias(case["alias"], case["target"], case["edit"], k)
+        return [(alias_sig(case["alias"], case["target"], case["edit"], k, problem), detail) for problem, detail in problems]
     steps = [[s[0], s[1]] for s in case["steps"]]
     _, viols, _ = execute(int(case["D"]), case["kind"], steps, None)
     return viols
